@@ -24,10 +24,85 @@ from .index import Index
 from . import core
 
 PROPS = ['C%02d' % i for i in range(1, 21)]
+# bold rewrites kept for the record: not expected to be silent
+BOLD = ('C15/h1', 'C19/h3', 'C20/h2')
+
+
+def _parse_diff(path):
+    """{relative file: [(old start line, old lines, new lines)]} of a
+    unified diff (git format)."""
+    files = {}
+    cur = None
+    hunk = None
+    with open(path) as fh:
+        content = fh.read().split('\n')
+        if content and content[-1] == '':
+            content.pop()
+        for line in content:
+            if line.startswith('\\'):
+                continue
+            if line.startswith('+++ '):
+                name = line[4:].strip()
+                if name.startswith('b/'):
+                    name = name[2:]
+                cur = files.setdefault(name, [])
+                hunk = None
+            elif line.startswith('--- ') or line.startswith('diff ') or \
+                    line.startswith('index '):
+                hunk = None
+            elif line.startswith('@@') and cur is not None:
+                start = int(line.split()[1].split(',')[0].lstrip('-'))
+                hunk = (start, [], [])
+                cur.append(hunk)
+            elif hunk is not None:
+                if line.startswith(' ') or line == '':
+                    hunk[1].append(line[1:])
+                    hunk[2].append(line[1:])
+                elif line.startswith('-'):
+                    hunk[1].append(line[1:])
+                elif line.startswith('+'):
+                    hunk[2].append(line[1:])
+    return files
+
+
+def _apply_hunks(text, hunks):
+    """Apply the hunks of one file to its text; None when one of them does
+    not fit (the tree under test differs there)."""
+    lines = text.split('\n')
+    shift = 0
+    for start, old, new in hunks:
+        at = None
+        for delta in sorted(range(-60, 61), key=abs):
+            pos = start - 1 + shift + delta
+            if pos >= 0 and lines[pos:pos + len(old)] == old:
+                at = pos
+                break
+        if at is None:
+            return None
+        lines[at:at + len(old)] = new
+        shift += len(new) - len(old) + (at - (start - 1 + shift))
+    return '\n'.join(lines)
 
 
 def _build_overlay(edits, root):
     overlay = {}
+    if isinstance(edits, str):
+        # a recorded diff (seeded change or corpus refactoring)
+        for rel, hunks in _parse_diff(edits).items():
+            try:
+                with open(os.path.join(root, rel)) as fh:
+                    text = fh.read()
+            except IOError:
+                return None, 'missing file %s' % rel
+            text = _apply_hunks(text, hunks)
+            if text is None:
+                return None, '%s: a hunk does not apply' % rel
+            try:
+                compile(text, rel, 'exec', dont_inherit=True)
+            except SyntaxError as err:
+                return None, 'variant does not compile: %s' % err
+            overlay[rel] = text
+        return overlay, None
     for rel, old, new in edits:
         path = os.path.join(root, rel)
         if rel in overlay:
@@ -81,6 +156,23 @@ def variants(prop):
     mod = importlib.import_module('sa.rules.%s' % prop.lower())
     muts = list(getattr(mod, 'MUTANTS', []))
     refs = list(getattr(mod, 'REFACTORS', []))
+    # the recorded corpora of this property: every confirmed seeded change
+    # is a mutant its own check must report, every recorded refactoring
+    # (bold ones excepted, see refactors/README) must stay silent
+    here = os.path.dirname(os.path.dirname(os.path.abspath(__file__)))
+    sdir = os.path.join(here, 'seeded')
+    if os.path.isdir(sdir):
+        for name in sorted(os.listdir(sdir)):
+            patch = os.path.join(sdir, name, 'patch.diff')
+            if name.startswith(prop + '-') and os.path.isfile(patch):
+                muts.append(('seed:%s' % name, patch, prop + '.'))
+    rdir = os.path.join(here, 'refactors', prop)
+    if os.path.isdir(rdir):
+        for name in sorted(os.listdir(rdir)):
+            if name.endswith('.diff') and \
+                    '%s/%s' % (prop, name[:-5]) not in BOLD:
+                refs.append(('corpus:%s/%s' % (prop, name[:-5]),
+                             os.path.join(rdir, name)))
     return muts, refs
 
 
